@@ -31,7 +31,7 @@ __all__ = ['lvs_validator']
 
 
 def lvs_validator(checker: Checker, app: NDNApp, trust_anchor: BinaryStr,
-                  storage: PublicKeyStorage = MemoryKeyStorage()) -> Validator:
+                  storage: PublicKeyStorage | None = None) -> Validator:
     async def validate_name(name: FormalName, sig_ptrs: SignaturePtrs) -> bool:
         if (not sig_ptrs.signature_info or not sig_ptrs.signature_info.key_locator
                 or not sig_ptrs.signature_info.key_locator.name):
@@ -50,6 +50,9 @@ def lvs_validator(checker: Checker, app: NDNApp, trust_anchor: BinaryStr,
             raise ValueError('Trust anchor does not match all roots of trust of LVS model')
 
     sanity_check()
+    if storage is None:
+        # One key cache per validator: keys cached under one trust anchor must not vouch under another
+        storage = MemoryKeyStorage()
     cas_checker = CascadeChecker(app, trust_anchor, storage)
     ret = union_checker(validate_name, cas_checker)
     cas_checker.next_level = ret
